@@ -156,6 +156,47 @@ func parentMain(a vlib.Args, tok map[string]string) {
 		}(i)
 	}
 	wg.Wait()
+	// the second pass, one storm / walk per process
+	nstorm, nwalk := plan2(a, tok)
+	second := func(tokname string, n int, mk func(i int) *Program, what string) {
+		for i := 0; i < n && !enough(); i++ {
+			wg.Add(1)
+			sem <- struct{}{}
+			go func(i int) {
+				defer wg.Done()
+				defer func() { <-sem }()
+				if enough() {
+					return
+				}
+				od := filepath.Join(a.Out, fmt.Sprintf("%s_%d", tokname, i))
+				ex, o := runSelf(150*time.Second, "--tier", a.Tier, "--seed", fmt.Sprint(a.Seed), "--out", od, "--extra", fmt.Sprintf("%s,%s=%d", strings.TrimSuffix(extra, "child"), tokname, i))
+				res.Eval(fmt.Sprintf("%s%d", tokname, i), false)
+				if ex != 0 {
+					p := mk(i)
+					w := "the implementation crashed the process (panic outside the calling goroutine)"
+					if ex == 124 {
+						w = "it did not finish within the watchdog time"
+					}
+					add(fmt.Sprintf("%s: %s: %s", what, w, firstPanic(o)), p)
+					return
+				}
+				b, err := os.ReadFile(filepath.Join(od, "result.json"))
+				if err != nil {
+					return
+				}
+				var r struct {
+					Violations []vlib.Violation `json:"violations"`
+				}
+				if json.Unmarshal(b, &r) == nil && len(r.Violations) > 0 {
+					add(r.Violations[0].Desc, mk(i))
+				}
+				os.RemoveAll(od)
+			}(i)
+		}
+		wg.Wait()
+	}
+	second("onestorm", nstorm, func(i int) *Program { st := genStormAt(a.Seed, i, a.Thorough()); return &Program{Seed: a.Seed, Storm: &st} }, "merge storm")
+	second("onewalk", nwalk, func(i int) *Program { w := genWalkAt(a.Seed, i, a.Thorough()); return &Program{Seed: a.Seed, Walk: &w} }, "backward walk")
 	for _, f := range finds {
 		res.Violate(f.desc, f.p)
 	}
